@@ -69,8 +69,8 @@ func (x *Exec) loopHeader(st *State, fr *Frame, b *ssa.BasicBlock, prev *ssa.Bas
 		invs = fr.ct.invs[l.ordinal]
 	}
 	if len(invs) == 0 {
-		x.unrolled++
-		if x.unrolled > unrollLimit {
+		fr.unroll++
+		if fr.unroll > unrollLimit {
 			fail("loop %d of %s does not unroll (no invariant given)", l.ordinal, fr.fn)
 		}
 		return nil, false
